@@ -48,6 +48,7 @@ Inductive expr :=
 | EWriteInt32 (e : expr)               (* fwrite(&v, sizeof(int), 1, f): the four bytes of v, little-endian; 1, or 0 with as many bytes as the stream still took *)
 | ELoadInt32 (p idx : expr)            (* ((int* )p)[idx]: the int stored little-endian in the four bytes at p + 4*idx of the caller's buffer *)
 | EWriteBuf (p n : expr)               (* fwrite(p, 1, n, f): the n bytes at p of the caller's buffer; the number of bytes the stream took *)
+| EMemcmp (p q n : expr)               (* memcmp(p, q, n) on the caller's buffer: -1 / 0 / 1 by the first differing (unsigned) byte; libc promises only the sign *)
 | ESeekCur (e : expr)                  (* fseek(f, e, SEEK_CUR) with e >= 0 on a regular file: the position moves on (also beyond the end), 0 *)
 | EPtrAdd (p e : expr)                 (* p + e on a char pointer *)
 | EPostDec (x : string)
@@ -214,6 +215,12 @@ Definition ptr_add (p : val) (z : Z) (s : state) : option val :=
   | _ => None
   end.
 
+Fixpoint memcmp_l (a b : list Z) : Z :=
+  match a, b with
+  | x :: a', y :: b' => if x <? y then -1 else if y <? x then 1 else memcmp_l a' b'
+  | _, _ => 0
+  end.
+
 Fixpoint eval (e : expr) (s : state) : option (val * state) :=
   match e with
   | EConst z => match chk z with Some v => Some (v, s) | None => None end
@@ -371,6 +378,23 @@ Fixpoint eval (e : expr) (s : state) : option (val * state) :=
           | _ => None
           end
         else None
+      | _ => None
+      end
+    | _ => None
+    end
+  | EMemcmp p q n =>
+    match eval p s with
+    | Some (VPtr RIn o1, s1) =>
+      match eval q s1 with
+      | Some (VPtr RIn o2, s2) =>
+        match eval n s2 with
+        | Some (VInt k, s3) =>
+          let len := Z.of_nat (List.length (inb s3)) in
+          if (0 <=? k) && (0 <=? o1) && (o1 + k <=? len) && (0 <=? o2) && (o2 + k <=? len) then
+            Some (VInt (memcmp_l (firstn (Z.to_nat k) (skipn (Z.to_nat o1) (inb s3))) (firstn (Z.to_nat k) (skipn (Z.to_nat o2) (inb s3)))), s3)
+          else None
+        | _ => None
+        end
       | _ => None
       end
     | _ => None
